@@ -24,19 +24,25 @@ TIE = ('translator+correspondence: translate/gen_c19.py regenerates the decision
        'against the stored columns, rows and dict keys of the real objects')
 ASSUMPTIONS = ['npstructures RaggedArray and NumPy indexing/concatenation/promotion are modelled at their documented '
                'behaviour (flat data + row lengths; dtype join; int64->float64 rounds to nearest even)',
-               'np.argsort (default kind) is NOT assumed stable: for sort_by the correspondence accepts any result with the '
-               'model\'s column types, the same multiset of rows and a sorted key column (the model itself sorts stably)',
+               'np.argsort(kind=\'stable\') (the repaired sort_by) is a stable sort: the comparison with the model is exact '
+               'for sort_by too',
+               'pandas: DataFrame(d).to_dict(\'series\') returns the keys of d with the same column values (ndarray with '
+               'its dtype, string Series, object column of row arrays / str) — the pandas round trip is modelled as the '
+               'dict round trip; real pandas is in the loop of the correspondence',
                'strings are NUL-free 7-bit ASCII; floats are multiples of 1/4 (exactly representable); '
                'Optional[int] columns hold ints only; nested tables are one level deep',
                'aliasing between a result and its operands is C20; here operands are re-observed for unchanged content']
-PARTIAL = ['C19_concat_rows_partial: guard "int64 values below 2^53" — unguarded statement refuted (C19_concat_rows_refuted; '
-           'finding C19-int-column-promoted-to-float64)',
-           'C19_from_rows_roundtrip_pinned_partial: guard ">= 1 row and no nested-table field" — refuted outside it '
-           '(C19_from_rows_pinned_refuted; findings C19-from-entry-tuples-zero-rows, -nested-table)',
-           'C19_sort_by_model covers numeric key columns; sort_by on string-like columns raises on the pinned code '
-           '(finding C19-sort-by-string-column), on the flat encoded column it is tied by correspondence only',
-           'from_dict(todict t) / pandas round trip: modelled and compared per case (incl. dict keys); only the '
-           'dotted-name lemmas (C19_dict_names) are proved']
+PARTIAL = ['C19_concat_rows_partial / the Inv invariant of C19_program_refines: int64 and bool columns hold integers below '
+           '2^53 in magnitude — the unguarded statement is refuted (C19_concat_rows_refuted); on /repo HEAD this class is '
+           'reachable only through List[int] columns without any element (finding C19-int-list-column-promoted-to-float64, '
+           'notes/C19.fix-7.diff)',
+           'C19_from_rows_roundtrip_pinned_partial / C19_from_rows_pinned_refuted are about the code before fix-1/fix-2 '
+           '(history); on HEAD C19_step_refines covers from_entry_tuples for every stored table, zero rows and nested '
+           'tables included',
+           'op_good guard of C19_program_refines / C19_model_ok_implies_spec_ok: replace and add_fields arguments are '
+           'acceptable values (mb_ok) with ints below 2^53; concatenation with the other operand needs equal schemas; '
+           'dict/pandas round trips need pairwise different dot-free field names.  Outside the guard (characters outside '
+           'the alphabet, non-ASCII text, tables of different schemas) the behaviour is tied by correspondence only']
 PER_FILE = 20
 
 BASE_KINDS = ['int', 'opt', 'float', 'bool', 'str', 'id', 'list', 'dna', 'strand']
@@ -92,7 +98,8 @@ def _gen_cell(rng, k, big=False):
     if k == 'id':
         return ''.join(rng.choice('chrABx12_.') for _ in range(rng.choice([0, 1, 1, 2, 4, 6])))
     if k == 'list':
-        return [rng.choice([0, 1, 2, 5, -3, 40]) for _ in range(rng.choice([0, 0, 1, 2, 3]))]
+        vals = [0, 1, 2, 5, -3, 40] + ([2 ** 53 + 1, -(2 ** 53) - 3, 2 ** 60 + 7] if big else [])
+        return [rng.choice(vals) for _ in range(rng.choice([0, 0, 1, 2, 3]))]
     if k == 'dna':
         return ''.join(rng.choice('ACGT') for _ in range(rng.choice([0, 1, 2, 3, 5])))
     if k == 'strand':
@@ -262,7 +269,7 @@ def generate(tier, seed):
         cases.append(c)
     # (5) large integers next to empty / float columns (dtype promotion)
     for i in range(40 if tier == 'quick' else 300):
-        sch = [['f0', rng.choice(['int', 'opt'])], ['f1', rng.choice(['id', 'list', 'int', 'str'])]]
+        sch = [['f0', rng.choice(['int', 'opt', 'list'])], ['f1', rng.choice(['id', 'list', 'int', 'str', 'list'])]]
         n0 = rng.choice([1, 2, 3])
         n1 = rng.choice([0, 0, 1, 2])
         c0 = [_gen_col(rng, k, n0, True) for _, k in sch]
@@ -777,7 +784,8 @@ def _deviations(case, o):
             elif k == 'sort' and ob.get('err') == 'TypeError' and sch[op[1]][1] in ('id', 'str', 'dna'):
                 tag = 'C19-sort-by-string-column'
             elif k in ('catr', 'catl', 'cats', 'cat3', 'replace') and want[0] == 'tab' and got_rows is not None and _only_rounding(want[1], got_rows):
-                tag = 'C19-int-column-promoted-to-float64'
+                kinds = _only_rounding(want[1], got_rows)
+                tag = 'C19-int-list-column-promoted-to-float64' if kinds == {'l'} else 'C19-int-column-promoted-to-float64' if kinds == {'z'} else None
             elif k == 'replace' and want[0] == 'err' and got_rows is not None and _only_multichar_strand(sch[op[1]][1], op[2]):
                 tag = 'C19-flat-encoded-column-multichar-entries'
             elif k == 'add' and want[0] == 'err' and got_rows is not None and _only_multichar_strand(op[2], op[3]):
@@ -801,21 +809,28 @@ def _key_le(a, b):
 
 
 def _only_rounding(want, got):
-    """rows equal except numeric cells of magnitude >= 2^53 that came back as a neighbouring double"""
+    """rows equal except numbers of magnitude >= 2^53 that came back as a neighbouring double.  Returns the set of cell
+    kinds affected ({'z'} plain numeric cells, {'l'} elements of int-list cells), or None when rows differ otherwise
+    or not at all."""
+    def near(a, b):
+        return abs(a) >= 4 * 2 ** 53 and abs(a - b) * 2 ** 52 <= abs(a)
     if len(want) != len(got):
-        return False
-    seen = False
+        return None
+    kinds = set()
     for rw, rg in zip(want, got):
         if len(rw) != len(rg):
-            return False
+            return None
         for a, b in zip(rw, rg):
             if a == b:
                 continue
-            if a[0] == 'z' and b[0] == 'z' and abs(a[1]) >= 4 * 2 ** 53 and abs(a[1] - b[1]) * 2 ** 52 <= abs(a[1]):
-                seen = True
-                continue
-            return False
-    return seen
+            if a[0] == 'z' and b[0] == 'z' and near(a[1], b[1]):
+                kinds.add('z')
+            elif (a[0] == 'l' and b[0] == 'l' and len(a[1]) == len(b[1])
+                  and all(x == y or near(x, y) for x, y in zip(a[1], b[1]))):
+                kinds.add('l')
+            else:
+                return None
+    return kinds or None
 
 
 def _operands_intact(o):
